@@ -80,7 +80,19 @@ func projContent(c map[string]*openapi.MediaType) any {
 			m[ct] = nil
 			continue
 		}
-		m[ct] = projSchema(mt.Schema, map[*jsonschema.Schema]bool{})
+		entry := map[string]any{"schema": projSchema(mt.Schema, map[*jsonschema.Schema]bool{})}
+		if len(mt.Examples) > 0 {
+			ex := map[string]any{}
+			for name, e := range mt.Examples {
+				if e == nil {
+					ex[name] = nil
+					continue
+				}
+				ex[name] = map[string]any{"summary": e.Summary, "description": e.Description, "value": string(e.Value), "external": e.ExternalValue}
+			}
+			entry["examples"] = ex
+		}
+		m[ct] = entry
 	}
 	return m
 }
@@ -133,7 +145,7 @@ func projOp(op *openapi.Operation) any {
 	for _, rq := range op.Security {
 		var names []string
 		for _, s := range rq.Schemes {
-			names = append(names, s.Name)
+			names = append(names, fmt.Sprintf("%s type=%s in=%s name=%s scheme=%s", s.Name, s.Security.Type, s.Security.In, s.Security.Name, s.Security.Scheme))
 		}
 		sec = append(sec, names)
 	}
